@@ -88,6 +88,30 @@ def strItems (v : V) : List (String × V) :=
   | .dct kvs => kvs.map fun kv => (keyToString kv.1, kv.2)
   | _ => []
 
+/-- `x["zz_poke"] = 1` on every namespace held directly in a list leaf; returns the count -/
+def pokeV : V → V × Nat
+  | .lst xs =>
+    let r := xs.map fun x => match x with
+      | .ns kvs => (V.ns (insert ⟨false, "zz_poke"⟩ (.atom 1) kvs), 1)
+      | v => (v, 0)
+    (.lst (r.map (·.1)), (r.map (·.2)).foldl (· + ·) 0)
+  | v => (v, 0)
+
+partial def pokeKV : KV → KV × Nat
+  | [] => ([], 0)
+  | (k, .ns sub) :: r =>
+    let (s', n) := pokeKV sub
+    let (r', m) := pokeKV r
+    ((k, .ns s') :: r', n + m)
+  | (k, v) :: r =>
+    let (v', n) := pokeV v
+    let (r', m) := pokeKV r
+    ((k, v') :: r', n + m)
+
+def pokeOut (st : St) : Json × St :=
+  let (s', n) := pokeKV st.cur
+  (Json.mkObj [("r", .num (JsonNumber.fromNat n)), ("s", vToJson (.ns s'))], { st with cur := s' })
+
 /-- returns (result json, new state) -/
 def step (st : St) (j : Json) : Json × St :=
   let op := getStr j "op"
@@ -124,6 +148,7 @@ def step (st : St) (j : Json) : Json × St :=
   | "as_dict" => outState (vToJson (.dct (asDict st.cur))) st.cur
   | "clone_eq" => outState (.bool (veq (.ns (clone st.cur)) (.ns st.cur))) st.cur
   | "clone_swap" => outState .null (clone st.cur)
+  | "poke_lists" => pokeOut st
   | "eq" => outState (.bool (veq (.ns st.cur) (getV j "v"))) st.cur
   | "from_dict" =>
     match fromDict clash (strItems (getV j "v")) with
